@@ -348,7 +348,8 @@ def stream_interaction(ctx):
     st = Stream('interaction-operator', 'seeded random Hermitian InteractionOperators (real and complex, dense and '
                 'sparse, N <= 4 quick / 5 thorough) through bravyi_kitaev with n_qubits in {None, N, N+1, N+3}; Model '
                 'compared exactly; Spec oracle against the tensor formula written out term by term under the encoding '
-                'on n_qubits; compared exactly with bravyi_kitaev(get_fermion_operator(.), n_qubits); '
+                'on n_qubits; compared exactly with bravyi_kitaev(get_fermion_operator(.), n_qubits); plus sparse tensors with '
+                'a guaranteed four-distinct-mode quartic entry, N in {4,5,6} (thorough also 9,10), n_qubits in N..N+3; '
                 'distinct = (tensor, n_qubits)')
     b = Batch(ctx, st)
     rng = rng_for(ctx.seed, 'c05-iop')
@@ -388,6 +389,68 @@ def stream_interaction(ctx):
                 st.count('ValueError:n_qubits-too-small')
             except Exception as e:  # noqa
                 st.violate('n_qubits below the tensor size raised %s' % type(e).__name__, case, {})
+    b.flush()
+
+    # targeted: sparse tensors that are guaranteed to contain a two-body entry on FOUR DISTINCT modes, with
+    # n_qubits above the tensor size (the double-excitation case D with modes whose Fenwick ancestors differ
+    # only shows for N >= 5); the Spec operator is written out from the non-zero entries only (cheap oracle)
+    rng = rng_for(ctx.seed, 'c05-quartic')
+    sizes = [4, 5, 5, 6, 5, 6] + ([9, 10] if ctx.tier == 'thorough' else [])
+    for k in range(budget(ctx.tier, 45, 200)):
+        N = sizes[k % len(sizes)]
+        cplx = rng.random() < 0.7
+        one = numpy.zeros((N, N), dtype=complex)
+        two = numpy.zeros((N, N, N, N), dtype=complex)
+        n_terms = 1 if N >= 9 else rng.choice([1, 2, 2, 3])
+        for t in range(n_terms):
+            kind = 'quartic' if t == 0 and k % 3 != 2 else rng.choice(['quartic', 'number-excitation', 'coulomb',
+                                                                         'random', 'number-excitation'])
+            if kind == 'quartic':
+                idx = tuple(rng.sample(range(N), 4))
+            elif kind == 'number-excitation':      # n_i a_j^dagger a_k (case C)
+                i3, j3, k3 = rng.sample(range(N), 3)
+                idx = rng.choice([(i3, j3, k3, i3), (j3, i3, i3, k3), (i3, j3, i3, k3), (j3, i3, k3, i3)])
+            elif kind == 'coulomb':                # n_i n_j (case B)
+                i3, j3 = rng.sample(range(N), 2)
+                idx = rng.choice([(i3, j3, j3, i3), (i3, j3, i3, j3)])
+            else:
+                idx = tuple(rng.randrange(N) for _ in range(4))
+            st.count('sparse-entry:' + kind)
+            partner = (idx[3], idx[2], idx[1], idx[0])
+            from c04 import dy
+            v = dy(rng, cplx and idx != partner)
+            two[idx] = v
+            two[partner] = numpy.conj(v)
+        if rng.random() < 0.5:
+            a, c = rng.sample(range(N), 2)
+            v = dy(rng, cplx)
+            one[a, c] = v
+            one[c, a] = numpy.conj(v)
+        iop = of.InteractionOperator(rng.choice([0.0, 0.5]), one, two)
+        nq = N + rng.choice([0, 1, 2, 3, 1, 2])
+        # the Spec operator, from the tensor entries directly
+        A = [[[], to_gq(iop.constant)]]
+        for (a, c), v in numpy.ndenumerate(one):
+            if v != 0:
+                A.append([[[a, 1], [c, 0]], to_gq(v)])
+        for (a, c, d, e), v in numpy.ndenumerate(two):
+            if v != 0:
+                A.append([[[a, 1], [c, 1], [d, 0], [e, 0]], to_gq(v)])
+        case = {'fn': 'bravyi_kitaev', 'n_qubits': nq, 'interaction_operator_sparse': {'N': N, 'terms': A}}
+        st.case(case)
+        st.count('quartic:N=%d:n_qubits-N=%d' % (N, nq - N))
+        ok, Q = call(st, 'bravyi_kitaev(InteractionOperator)', case, lambda: of.transforms.bravyi_kitaev(iop, nq))
+        if not ok:
+            continue
+        jQ = enc_op('qubit', Q.terms)
+        b.add('bravyi_kitaev(InteractionOperator) quartic', case, jQ,
+              {'op': 'c05.iop', 'N': N, 'n': nq, 'constant': to_gq(iop.constant), 'one': flat(one), 'two': flat(two)},
+              oracle('bk', 'fermion', nq, ['op', A], jQ) if nq <= 10 else None)
+        ok, QF = call(st, 'bravyi_kitaev(get_fermion_operator(iop))', case,
+                      lambda: of.transforms.bravyi_kitaev(of.transforms.get_fermion_operator(iop), nq))
+        if ok and canon_nz(jQ) != canon_nz(enc_op('qubit', QF.terms)):
+            st.violate('InteractionOperator path differs from the FermionOperator path', case,
+                       {'fast': jQ, 'fermion_path': enc_op('qubit', QF.terms)})
     b.flush()
     return st
 
